@@ -14,6 +14,7 @@ import (
 	"github.com/markusressel/fan2go/internal"
 	"github.com/markusressel/fan2go/internal/configuration"
 	"github.com/markusressel/fan2go/internal/sensors"
+	"github.com/markusressel/fan2go/internal/util"
 )
 
 // TestDriveC08: sequences of polls of real hwmon / file / cmd sensors through the real monitor
@@ -86,8 +87,24 @@ func TestDriveC08(t *testing.T) {
 			if r.Intn(4) == 0 || (wantTimeout && k == length/2) {
 				switch kind {
 				case "hwmon", "file":
-					fault = []string{"missing", "empty", "garbage", "dir", "float", "words", "blank"}[r.Intn(7)]
+					fault = []string{"missing", "empty", "garbage", "dir", "float", "words", "blank", "flicker", "flicker"}[r.Intn(9)]
 					switch fault {
+					case "flicker":
+						// a transient error: the first read of this poll fails, the file itself is fine (whoever reads a
+						// second time gets the current reading `cur`)
+						writeVal(strconv.Itoa(cur))
+						orig := util.VerifReadInt
+						nread := 0
+						util.VerifReadInt = func(path string) (int, error, bool) {
+							if path == valFile {
+								nread++
+								if nread == 1 {
+									return -1, fmt.Errorf("injected transient read error"), true
+								}
+							}
+							return orig(path)
+						}
+						restore = func() { util.VerifReadInt = orig }
 					case "missing":
 						os.Remove(valFile)
 					case "empty":
@@ -131,6 +148,11 @@ func TestDriveC08(t *testing.T) {
 			}
 			errp := internal.VerifUpdateSensor(sensor)
 			restore()
+			if fault == "flicker" && errp == nil {
+				// the poll succeeded after all (a second read): it is judged as a successful poll of the current reading
+				fault = ""
+				xs = strconv.Itoa(cur)
+			}
 			if fault == "" && errp != nil {
 				// the read of a healthy sensor failed all the same (a command can fail on a heavily loaded machine): what is
 				// observed is a failed poll, and it is judged as one
